@@ -29,5 +29,9 @@ noncomputable def boostU (G ux uy uz : ℝ) (p : ℝ × ℝ × ℝ × ℝ) : ℝ
   let c := up / (G + 1) + p.2.2.2
   (p.1 + c * ux, p.2.1 + c * uy, p.2.2.1 + c * uz, up + G * p.2.2.2)
 
+/-- rapidity `½ log((t + z)/(t − z))` of a Cartesian 4-vector (meaningful for `|z| < t`) -/
+noncomputable def rapidityOf (p : ℝ × ℝ × ℝ × ℝ) : ℝ :=
+  1 / 2 * Real.log ((p.2.2.2 + p.2.2.1) / (p.2.2.2 - p.2.2.1))
+
 end Spec
 end VR
